@@ -10,13 +10,9 @@ package pool
 
 //@ stub (pkg/filesystem/pool.FilePool).NewFile
 //@   pure -- the base pool is a different object: it does not touch this pool's quota counters
-//@ stub (github.com/buildbarn/bb-storage/pkg/filesystem.FileReadWriter).Close
-//@   pure -- the underlying file does not touch the quota counters or the wrapper's size field
-//@ stub (github.com/buildbarn/bb-storage/pkg/filesystem.FileReadWriter).Truncate
-//@   pure
-//@ stub (github.com/buildbarn/bb-storage/pkg/filesystem.FileReadWriter).WriteAt
-//@   pure
-//@   ensures 0 <= r0 && r0 <= len(arg1)
+// The underlying file (bb-storage FileReadWriter; assumed contract in
+// /verif/stubs/filesystem.spec) does not touch the quota counters or the
+// wrapper's size field.
 
 //@ func (*quotaMetric).allocate
 //@   props C15
